@@ -149,7 +149,8 @@ impl BlockStart {
             r == source_position_spec(*comment, position_in_comment as nat), // [P2.post.is_spec]
 //@wrap rule=E13 find=<<comment.comment_text[>> skip=<<..>> to=<<verif_str_prefix(comment.comment_text.as_str(), >> close=<<)>> count=2
 //@chain rule=E13 find=<<.lines()>> suffix=<<.count()>> to=verif_lines_count
-//@chain rule=E13 find=<<.rfind(>> to=verif_rfind_char argkind=char
+//@chain rule=E13 find=<<.rfind(>> to=verif_rfind_char argkind=char optional=1
+//@chain rule=E13 find=<<.find(>> to=verif_find_char argkind=char optional=1
 //@edit rule=ghost before=<<let line_number>>
         proof {
             broadcast use axiom_prefix_step, axiom_lines_count, axiom_rfind_char, axiom_chars_le_bytes;
